@@ -6,6 +6,11 @@ pub open spec fn bld_wf<T>(b: AutomatonBuilder<T>) -> bool {
     &&& forall|k: T| #[trigger] b.id_map@.contains_key(k) ==> b.id_map@[k] < b.size
     &&& forall|k1: T, k2: T| #![trigger b.id_map@[k1], b.id_map@[k2]] b.id_map@.contains_key(k1) && b.id_map@.contains_key(k2) && b.id_map@[k1] == b.id_map@[k2] ==> k1 == k2
     &&& states_ok(b.states@, b.size as int)
+    &&& forall|q: int| 0 <= q < b.size ==> #[trigger] id_has_key(b.id_map@, q)
+}
+
+pub open spec fn id_has_key<T>(m: Map<T, usize>, q: int) -> bool {
+    exists|k: T| m.contains_key(k) && #[trigger] m[k] == q
 }
 
 pub open spec fn sic_fresh(s: StateInConstruction) -> bool {
